@@ -5,7 +5,7 @@ usage: tools/seedscan.py [--confirm] <dir-with-patch.diff> ...     (dir holds pa
 For every candidate: applies the patch to a scratch copy of /repo/yatiml, runs all 18 quick checks in-process against it and
 prints which properties raise an unlisted finding (V) or an analysis error (AE)."""
 import importlib, json, os, shutil, subprocess, sys, tempfile
-sys.path.insert(0, '/verif')
+sys.path.insert(0, os.environ.get('SA_ROOT', '/verif'))     # SA_ROOT: run a snapshot of the checker while /verif is being edited
 from concurrent.futures import ProcessPoolExecutor
 
 CONFIRM = '--confirm' in sys.argv
@@ -101,4 +101,4 @@ if __name__ == '__main__':
             print('      %s: %s' % (p, '; '.join(ch[p])[:300]))
         for p in aes:
             print('      %s: %s' % (p, ch[p][:300]))
-    json.dump(results, open('/tmp/seedscan_last.json', 'w'), indent=1)
+    json.dump(results, open(os.environ.get('SEEDSCAN_OUT', '/tmp/seedscan_last.json'), 'w'), indent=1)
